@@ -5,6 +5,8 @@ CONSTANTS
   MaxCerts = 2
   MaxScript = 3
   MaxBlocks = 2
-  Original = FALSE
+  Variant = "fixed"
+  Limits = {1, 2, 100}
+  Producers = {"v1", "v2"}
 INVARIANTS AcceptTypeOK ChunksExact PrefixExact NeverFails
 CHECK_DEADLOCK FALSE
